@@ -3,8 +3,8 @@ import vlib
 CFG = dict(
     imports=["From Verif.Common Require Import Labels Prefix.", "From Verif.C04 Require Import Model Spec."],
     checker="check_case",
-    n=dict(quick=400, thorough=12000),
-    shard=50,
+    n=dict(quick=240, thorough=12000),
+    shard=30,
     rule="histories of 10-40 operations (UpdateIPSet / DeleteIPSet / workload, host endpoint and network set updates "
          "through OnUpdate / raw UpdateEndpointOrSet / DeleteEndpoint / profile label updates and deletes) on the real "
          "SelectorAndNamedPortIndex with the overlap suppressor on (half) and off (half); small pools of shared host IPs, "
@@ -14,13 +14,29 @@ CFG = dict(
     trusted=["Coq 8.16.1 kernel + vm_compute",
              "hand-written model coq/theories/C04/Model.v tied to felix/labelindex/named_port_index.go by this correspondence run",
              "Go driver harness/C04 (overlay build, tag verif); it prints the selector AST produced by the real parser"],
-    assumptions=["candidate pruning (label indexes) keeps every true match (property C07): oracle hypothesis prune_*_sound",
-                 "Go map iteration order = arbitrary permutation (hypothesis shuffle_perm)",
-                 "the suppressor's CIDR trie is the set of stored prefixes (C36: c36_update, c36_delete, c36_covers); "
-                 "ClosestDescendants = maximal stored prefixes strictly inside the query",
+    assumptions=["oracles_ok: candidate pruning by the label indexes keeps every true match (property C07) and Go map / set "
+                 "iteration is an arbitrary permutation, possibly different at every use; both are universally quantified in every theorem",
+                 "op_wf: addresses fit their family, prefix lengths are within the width, ip.CIDR values are masked",
+                 "op_interned: selectors with the same canonical text (what Selector.Equal compares) evaluate alike (property C06); "
+                 "only used by the theorems stated against the datastore view",
+                 "the suppressor's per-set CIDR trie is modelled as the set of stored prefixes: Update/Delete/Covers are exactly that by "
+                 "C36 (c36_update, c36_delete, c36_covers); ClosestDescendants = stored prefixes strictly inside the query with none "
+                 "in between is NOT proved in C36 and is tied to the code by this correspondence run only",
                  "uint64 reference counts do not overflow (nat)",
-                 "an endpoint's profile ID list has no duplicates (generator domain)"],
+                 "an endpoint's profile ID list has no duplicates (generator domain; a duplicate makes DeleteEndpoint panic: "
+                 "fixed in /repo by 6988aad from fixes/C04-duplicate-profile-ids.patch; the driver keeps a probe for it)"],
 )
+
+def _extra(ctx, lines):
+    out = []
+    for l in lines:
+        if l.get("probe") == "dup-profile" and l.get("panic"):
+            out.append((dict(key="dup-profile-panic", kind="implementation-panic", panic=l["panic"],
+                             input="HostEndpoint with ProfileIDs [p, p] created and then deleted (OnUpdate)",
+                             note="outside the C04 statement (no IP set content is wrong) but Felix's calculation graph dies"), ""))
+    return out
+
+CFG["extra"] = _extra
 
 def run(ctx):
     return vlib.standard_flow(ctx, CFG)
@@ -28,9 +44,12 @@ def run(ctx):
 MANIFEST = dict(
     category="proof",
     text="Theorems over an executable model of SelectorAndNamedPortIndex for every history of IP set, endpoint, network set and "
-         "profile updates, every Go map iteration order and every sound candidate pruning: reference count = number of "
-         "contributions, the accumulated OnMemberAdded/OnMemberRemoved stream equals the members selected by the rule, no "
-         "duplicate adds/removes, and with overlap suppression the emitted CIDRs are an antichain with the same cover; plus a "
-         "correspondence run of model and spec oracle against the real Go index with both suppressor settings.",
+         "profile updates, every Go map iteration order and every sound candidate pruning (global invariant proved by induction "
+         "over the history): reference count = number of contributions; the OnMemberAdded/OnMemberRemoved stream never adds a "
+         "present member or removes an absent one; its accumulation equals, as a set, the members the rule selects in the "
+         "datastore view (addresses / CIDRs, or address-port-protocol for named ports); with overlap suppression the emitted "
+         "CIDRs are an antichain, each is a selected CIDR and every selected CIDR lies inside an emitted one; the spec oracle "
+         "accepts every model run.  Plus a correspondence run of model and spec oracle against the real Go index with both "
+         "suppressor settings.",
     note="Trusted: Coq kernel; hand-written model tied to the code only by the correspondence run; Go driver.",
 )
